@@ -1571,6 +1571,10 @@ def run(ctx):
             key = f"{t.kernel}:{t.sc.cls}:tie:{field}"
         ctx.disagree(key, t.desc(), mv, iv, f"model vs implementation: {field}")
     for r in records:
+        if r[0] == "step-start":
+            fk = c02_chain.step_start_oracle(B_, ctx, r)
+            if fk is not None and fk not in open_known:
+                new_fail_keys.setdefault(r[1], fk)
         if r[0] == "returned-cache":
             fk = c02_chain.returned_cache_oracle(B_, ctx, r)
             if fk is not None and fk not in open_known:
